@@ -62,6 +62,8 @@ import SwcVerif.Props.C16Tree2
 #print axioms C16Tree2.good_tree
 #print axioms C16Tree2.generated_smooth_tree
 #print axioms C16Tree2.generated_smooth_tree_endpoints
+#print axioms C16Tree2.foldl_perm
+#print axioms C16Tree2.generated_smooth_tree_order
 #print axioms RefineAsm.rep_exists
 #print axioms C16Tree.rep_of_ranked
 #print axioms C16Tree2.branch_pre_lt
